@@ -176,8 +176,9 @@ func checkC16(c *Ctx) {
 		}
 		sort.Strings(fns)
 		bad := []string{}
+		helpers := helpersOfAllowed(u, corePkgs, func(name string) bool { _, ok := e.Readers[name]; return ok })
 		for _, fn := range fns {
-			if _, ok := e.Readers[fn]; !ok {
+			if _, ok := e.Readers[fn]; !ok && !helpers[fn] {
 				bad = append(bad, fn+" ("+u.pos(readers[key][fn].Pos())+")")
 			}
 		}
@@ -312,6 +313,42 @@ func checkC20(c *Ctx) {
 
 	// ---- C20.owner
 	owners := map[string]bool{"pkg/server.ZnPMServer.maintainChildState": true, "pkg/server.NewZnPMServer": true}
+	// a helper that is only ever called (synchronously, never as a goroutine or a function value) from an owner
+	// runs on the owner's goroutine
+	for changed := true; changed; {
+		changed = false
+		for _, h := range su.srcFuncs("pkg/server") {
+			if h.Parent() != nil || owners[su.fname(h)] {
+				continue
+			}
+			sites := su.staticCallers(h)
+			okAll := len(sites) > 0
+			for _, cs := range sites {
+				_, plain := cs.(*ssa.Call)
+				if !plain || cs.Parent().Parent() != nil || !owners[su.fname(cs.Parent())] {
+					okAll = false
+				}
+			}
+			// no use as a value
+			if okAll {
+				for _, g := range su.srcFuncs("pkg/server") {
+					for _, in := range instrsOf(g) {
+						for _, op := range in.Operands(nil) {
+							if *op == ssa.Value(h) {
+								if call, isCall := in.(ssa.CallInstruction); !isCall || call.Common().Value != ssa.Value(h) {
+									okAll = false
+								}
+							}
+						}
+					}
+				}
+			}
+			if okAll {
+				owners[su.fname(h)] = true
+				changed = true
+			}
+		}
+	}
 	seen := map[string]bool{}
 	for _, f := range su.srcFuncs("pkg/server") {
 		root := f
